@@ -1,13 +1,44 @@
 import Mp4ff.Model.Frag
+import Mp4ff.Lemmas.C05
 /-!
 # C05 — samples written into fragments are read back exactly
-(Property theorems are added from `Mp4ff/Lemmas/C05.lean` when completed.)
+Property theorems (proofs in `Mp4ff/Lemmas/C05.lean`) about the core every history goes through: what a sample run
+and its tfhd carry through optimise → encode → decode → default resolution, the decode times and byte slices
+`GetFullSamples` produces, and the data offsets `SetTrunDataOffsets` assigns.  The composition with the moof/mdat
+box encoding (C01 layouts) and the container plumbing is tied by the history correspondence of `bin/check C05`.
 -/
 namespace Mp4ff.Frag.C05
 
-/-- first data offset = moof size + mdat header: the first run written starts right after the mdat header -/
-theorem first_offset (moofSize mdatHdr sz : Nat) (rest : List Nat) :
-    (dataOffsets moofSize mdatHdr (sz :: rest)).head? = some (moofSize + mdatHdr) := by
-  simp [dataOffsets]
+/-- **without optimisation** a run created by the fragment builder is read back exactly, whatever tfhd/trex defaults are -/
+theorem readBack_fresh (tfhd : Tfhd) (trex : Trex) (t : Trun) (h : t.Fresh) : readBack tfhd trex t = t.samples :=
+  Frag.readBack_fresh tfhd trex t h
+
+/-- **with trun optimisation** (common duration / size / flags with first-sample exception moved to tfhd, all-zero
+    composition offsets dropped) the run still resolves to exactly the samples added: every sample list, every
+    starting tfhd, every trex -/
+theorem optimize_preserves (tfhd : Tfhd) (trex : Trex) (t : Trun) (h : t.Fresh) (tfhd' : Tfhd) (t' : Trun)
+    (ho : optimize tfhd t = some (tfhd', t')) : readBack tfhd' trex t' = t.samples :=
+  Frag.optimize_preserves tfhd trex t h tfhd' t' ho
+
+/-- optimisation never touches the stored samples and fails only on an empty run -/
+theorem optimize_samples (tfhd : Tfhd) (t : Trun) :
+    (t.samples = [] → optimize tfhd t = none) ∧
+    (t.samples ≠ [] → ∃ tfhd' t', optimize tfhd t = some (tfhd', t') ∧ t'.samples = t.samples) :=
+  Frag.optimize_samples tfhd t
+
+/-- **decode times**: the k-th sample read back has the base decode time plus the durations before it -/
+theorem decodeTimes_spec (base : Nat) (ss : List Sample) (k : Nat) (hk : k < ss.length) :
+    (decodeTimes base ss)[k]? = some (base + ((ss.take k).map (·.dur)).sum) := Frag.decodeTimes_spec base ss k hk
+
+/-- **bytes**: with the mdat payload being the runs' data in write order and the offsets of `SetTrunDataOffsets`,
+    every run's samples are read back with exactly their own bytes (any number of runs, any interleaving order) -/
+theorem dataOffsets_spec (moofSize mdatHdr : Nat) (runs : List (List (Sample × Bytes))) (hr : ∀ r ∈ runs, RunOK r)
+    (k : Nat) (hk : k < runs.length) :
+    let mdat := runs.flatMap runData
+    let offs := dataOffsets moofSize mdatHdr (runs.map fun r => (runData r).length)
+    sampleBytes mdat (offs.getD k 0 - (moofSize + mdatHdr)) ((runs.getD k []).map (·.1)) = (runs.getD k []).map (·.2) :=
+  Frag.dataOffsets_spec moofSize mdatHdr runs hr k hk
+
+example : ({ samples := [⟨0x2000000, 3000, 20, 0⟩, ⟨0x1010000, 3000, 20, 0⟩] } : Trun).Fresh := by simp [Trun.Fresh]
 
 end Mp4ff.Frag.C05
